@@ -15,6 +15,7 @@ package main
 
 import (
 	"bufio"
+	"bytes"
 	"context"
 	"encoding/json"
 	"flag"
@@ -413,6 +414,9 @@ func (h *Host) GetSpec(ctx context.Context, src *crew.SpecSource) (core.Specter,
 	if err != nil {
 		return nil, err
 	}
+	// The first byte that isn't white space says what the
+	// representation is.
+	specSrc = bytes.TrimSpace(specSrc)
 	if len(specSrc) == 0 {
 		return nil, fmt.Errorf("empty spec")
 	}
